@@ -94,7 +94,7 @@ def run(R):
         nw = 0
         for fn in repo.package_funcs():
             for k in calls_in(fn.node):
-                if isinstance(k.func, ast.Attribute) and k.func.attr in ('isalive', 'wait', 'close') and (ctext(k.func.value, fn) or '').endswith('ptyproc'):
+                if isinstance(k.func, ast.Attribute) and k.func.attr in ('isalive', 'wait', 'close') and (ctext(k.func.value, fn, stale_ok=True) or '').endswith('ptyproc'):
                     nw += 1
                     ws = [p for p in parent_chain(k) if isinstance(p, ast.With) and any(
                         isinstance(i.context_expr, ast.Call) and callee_last(i.context_expr) == '_wrap_ptyprocess_err' for i in p.items)]
@@ -142,7 +142,7 @@ def check_fd_close(c, f, is_release):
 
 def check_pty_close(c, f):
     g = f.cfg
-    cl = cfg_nodes_with_call(f, lambda k: callee_last(k) == 'close' and (ctext(k.func.value, f) or '').endswith('ptyproc'))
+    cl = cfg_nodes_with_call(f, lambda k: callee_last(k) == 'close' and (ctext(k.func.value, f, stale_ok=True) or '').endswith('ptyproc'))
     c.need(len(cl) == 1, 'spawn.close: ptyproc.close() not found')
     n, k = cl[0]
     fa = [kw for kw in k.keywords if kw.arg == 'force']
